@@ -28,6 +28,7 @@ type seed struct {
 	// cleared by reflection, extra data swapped) only get V2 and the byte oracle.
 	wellFormed bool
 	valueOnly  bool // value oracle only, no byte-level neighbourhood
+	sweep      bool // the field-value sweep family runs on this value
 	desc       map[string]any
 }
 
@@ -300,7 +301,8 @@ func buildMsgCorpus(t lnwire.MessageType, nMut, nVal int, thorough bool) *codecC
 			mutate = k == fullest
 		}
 		add(seed{name: fmt.Sprintf("rand%d", k), full: enc(gen()), gen: gen, wellFormed: true, valueOnly: !mutate,
-			desc: map[string]any{"gen": "rapid", "type": int(t), "seed": k}})
+			sweep: k == fullest || (thorough && k == emptiest),
+			desc:  map[string]any{"gen": "rapid", "type": int(t), "seed": k}})
 	}
 
 	// (3) every present/absent combination of the optional fields (<= 2^6), derived
@@ -645,7 +647,7 @@ func buildFailCorpus(code lnwire.FailCode) (*codecCorpus, []seed) {
 			cc.notes = append(cc.notes, fmt.Sprintf("constructor value %d not encodable", i))
 			continue
 		}
-		cc.seeds = append(cc.seeds, seed{name: fmt.Sprintf("ctor%d", i), full: b, gen: g, wellFormed: true,
+		cc.seeds = append(cc.seeds, seed{name: fmt.Sprintf("ctor%d", i), full: b, gen: g, wellFormed: true, sweep: true,
 			desc: map[string]any{"gen": "failctor", "code": int(code), "i": i}})
 		safely(func() { p, _ = pc.encode(g()) })
 		if p != nil {
